@@ -228,6 +228,8 @@ STRS = ['"s"', 'u8"s"', 'u"s"', 'U"s"', 'L"s"', '""', '"a\\"b"', '"\\\\"', '"/*"
 CHRS = ["'c'", "u'c'", "U'c'", "L'c'", "'\\''", "'\\\\'", "'ab'", "'\"'"]
 ALPHABET = PUNCT_MULTI + PUNCT_ONE + IDENTS + NUMS + STRS + CHRS
 
+MARKABLE = re.compile(r'[A-Za-z_][A-Za-z0-9_]*')
+
 TRIPLES = [['.', '.', '.'], ['<', '<', '='], ['>', '>', '='], ['<', '<='], ['-', '-', '>'], ['+', '+', '+'], ['-', '>', '='],
            ['#', '#', '#'], ['1', '.', '5'], ['1e', '+', '5'], ['.', '.', '5'], ['.', '5', '.'], ['%', ':', '%', ':'],
            ['<', ':'], ['<', '%'], ['/', '/', 'x'], ['/', '*', 'x', '*', '/'], ['*', '/'], ['u8', '"s"', '"t"'], ['L', "'c'", 'L'],
@@ -322,18 +324,28 @@ class Juxta:
         out_lines = out1.split('\n')
         p2 = self.impl.write(out1, '.i.c')
         rc2, out2, err2 = self.impl.E(p2)
+        # third pass with marker macros: every plain identifier X of the batch is defined as [X]; where the REAL tokenizer
+        # re-reads an identifier token from the -E text the marker appears, where it fused with a neighbour it does not
+        marks = sorted({t for toks, _ in cases for t in toks if MARKABLE.fullmatch(t)})
+        rc3, out3, err3 = self.impl.E(p2, extra=[f'-D{m}=[{m}]' for m in marks])
+        m3 = split(model_spellings(self.model, out3) or []) if rc3 == 0 else {}
         for k, (toks, body) in enumerate(cases):
             self.corr.evaluations += 1
             self.corr.count(tag)
             single = '\n'.join(self.header(toks) + [f'Z{k}_ {body}']) + '\n'
             if mg.get(k) != toks:
                 viol.append({'what': '-E output does not re-lex (tokenize model) to the token sequence of the expansion',
-                             'input': single, 'expected': toks, 'got': mg.get(k),
+                             'input': single, 'expected': toks, 'got': mg.get(k), 'tokens': toks,
                              'output': out_lines[k] if k < len(out_lines) else None})
             elif k in gbad:
                 viol.append({'what': '-E output does not re-lex (gcc as lexer) to the token sequence of the expansion',
-                             'input': single, 'expected': toks, 'got': gbad[k],
+                             'input': single, 'expected': toks, 'got': gbad[k], 'tokens': toks,
                              'output': out_lines[k] if k < len(out_lines) else None})
+            want3 = [x for t in toks for x in (['[', t, ']'] if t in marks else [t])]
+            if mg.get(k) == toks and m3.get(k) != want3:
+                viol.append({'what': 'chibicc re-reads other identifier tokens from its -E output than it printed (second pass with '
+                                     'every identifier X defined as [X])', 'input': single, 'expected': want3, 'got': m3.get(k), 'tokens': toks,
+                             'output': out_lines[k] if k < len(out_lines) else None, 'second_pass_options': [f'-D{m}=[{m}]' for m in marks if m in toks]})
             if k < len(out_lines) and k < len(want_lines) and out_lines[k] + '\n' != want_lines[k]:
                 self.corr.disagreements.append({'kind': 'print_tokens/need_space model vs chibicc -E', 'input': single,
                                                 'impl': out_lines[k], 'model': want_lines[k].rstrip('\n')})
@@ -729,8 +741,22 @@ def search(ctx, broken, corr):
     for i in range(0, len(cases), 500):
         vs = [v for v in jx.run_batch(cases[i:i + 500], 'search') if not v.get('rejected')]
         if vs:
-            return vs[0]
+            return shrink_tuple(jx, rng, vs[0])
     return None
+
+
+def shrink_tuple(jx, rng, v):
+    """smallest contiguous sub-tuple of the juxtaposed tokens that still fails"""
+    toks = v.get('tokens')
+    if not toks or len(toks) <= 2:
+        return v
+    for n in range(2, len(toks)):
+        subs = [toks[i:i + n] for i in range(0, len(toks) - n + 1)]
+        cases = [(t, jx.render(t, rng, prefer=pref)) for t in subs for pref in ('F', 'T')]
+        vs = [x for x in jx.run_batch(cases, 'shrink') if not x.get('rejected')]
+        if vs:
+            return vs[0]
+    return v
 
 
 def replay(ctx, corr, path):
